@@ -37,6 +37,8 @@ def check(run):
     _r1(run, beam, att)
     _r2(run, prog, beam, att)
     _r3(run, beam, att)
+    run.include('C01', {'cherab/core/beam/node.pyx', 'cherab/core/model/attenuator/singleray.pyx', 'cherab/core/beam/model.pyx'},
+                'the attenuation is computed for the plasma, beam and atomic data currently attached')
 
 
 def _m(ci, name):
